@@ -58,6 +58,23 @@ def c12_scanner_cases(rnd, maxlen, dense):
                                 b2 = bytearray(b)
                                 b2[p2:p2 + 1] = s2
                                 cases.append((sc, bytes(b2)))
+    # block-structured regions: a special byte in the last / first lanes of one 16-byte block and EVERY special at the
+    # first / last lanes of the following blocks (carry-over state between blocks, clean blocks in between)
+    for sc in ("skipws", "findquote", "digits", "ident"):
+        fill = fills[sc][0]
+        sp = specials[sc][:4]
+        for nblocks in (2, 3, 4):
+            for tail in (0, 1, 5):
+                L = 16 * nblocks + tail
+                for p1 in (14, 15, 16, 30, 31):
+                    for s1 in sp:
+                        for p2 in (16, 17, 31, 32, 33, 47, 48, 49, L - 1):
+                            if p1 < p2 < L:
+                                for s2 in sp:
+                                    b = bytearray(fill * L)
+                                    b[p1:p1 + 1] = s1
+                                    b[p2:p2 + 1] = s2
+                                    cases.append((sc, bytes(b)))
     out = []
     for sc, region in cases:
         phase = rnd.randrange(0, 4) if not dense else rnd.randrange(0, 17)
@@ -397,6 +414,24 @@ def check_c07(res):
                 if out[:3] == ["ok", "ok", "ok"] and out[3 + klen:] != ["idx0", "1", "1", "none", "0"]:
                     res.violations.append(Violation("lookup-answer-depends-on-history", ln[:3000],
                                                     "%skey %r after %d preceding calls: %s" % (which, k_[:40], klen, ";".join(out[3 + klen:])), cfg))
+        # sets and maps of 2..130 elements against a permuted copy (equal) and a copy with one element changed (unequal)
+        sl, sm = [], []
+        for n_ in (2, 8, 16, 17, 31, 32, 33, 40, 63, 64, 65, 100, 130):
+            els = [rnd.choice([b"%d" % i, b":k%d" % i, b"\"s%d\"" % i, b"[%d]" % i, b"(%d x)" % i]) for i in range(n_)]
+            perm = list(els); rnd.shuffle(perm)
+            changed = list(perm); changed[rnd.randrange(n_)] = b":changed"
+            for kind_, wrap in (("set", lambda xs: b"#{" + b" ".join(xs) + b"}"),
+                                ("map", lambda xs: b"{" + b" ".join(x + b" " + x for x in xs) + b"}")):
+                sl.append("script P0=%s;P1=%s;P2=%s;E0,1;E1,0;E0,2;E2,0;H0;H1;E0,1;E0,2" % (hexs(wrap(els)), hexs(wrap(perm)), hexs(wrap(changed))))
+                sm.append((kind_, n_))
+        simpl, smodel = correspond(res, cfg, "san", sl, label="unordered-collections")
+        for (kind_, n_), ln, a in zip(sm, sl, simpl):
+            res.nontrivial.add((cfg, "unordered", kind_, n_))
+            res.count("unordered-collection")
+            out = a.split(";")
+            if is_crash(a) or out[:3] != ["ok", "ok", "ok"] or out[3:7] != ["1", "1", "0", "0"] or out[7] != out[8] or out[9:11] != ["1", "0"]:
+                res.violations.append(Violation("unordered-collection-equality-wrong", ln[:3000],
+                                                "%s of %d elements vs permuted / changed copy: %s" % (kind_, n_, ";".join(out[3:])[:200]), cfg))
         # deeply nested values: two reads of the same document must be equal with equal hashes at every depth
         dl, dm = [], []
         for (o, c_) in ((b"[", b"]"), (b"(", b")"), (b"{:k ", b"}"), (b"#{", b"}"), (b"#t ", b"")):
@@ -537,6 +572,12 @@ def check_c08(res):
                 meta.append(("set", 2, "deep%d" % d, (deep[:8], deep[:8])))
                 lines.append(docline(b"{" + deep + b" 1 " + deep + b" 2}"))
                 meta.append(("map", 2, "deep%d" % d, (deep[:8], deep[:8])))
+        # the duplicate-carrying literal in other positions: nested, as a map value, as a tag operand, inside a discarded form
+        for (a_, b_) in twins[:6]:
+            for inner in (b"#{" + a_ + b" 7 " + b_ + b"}", b"{" + a_ + b" 1 :z 2 " + b_ + b" 3}"):
+                for ctx in (b"[%s]", b"[1 [%s] 2]", b"{:v %s}", b"#t %s", b"[#_ %s 2]", b"#_ %s :x", b"[#_ [%s] 2]", b"(#_ #t %s 1)"):
+                    lines.append(docline(ctx % inner))
+                    meta.append(("set" if inner.startswith(b"#") else "map", 3, "nested", (a_, b_)))
         # are the twins really equal / the plain elements really distinct per the implementation's equality?
         impl, model = correspond(res, cfg, "san", lines, label="duplicates", jobs=12)
         for m_, ln, a in zip(meta, lines, impl):
@@ -578,11 +619,18 @@ def check_c09(res):
                     ("scalars", scalar_kinds, [16, 17, 40, 1000, 1001] + ([300, 999] if thorough else [])),
                     ("keywords", [":k%d"], [17, 1000, 1001] if thorough else [17, 200]),
                     ("strings", ['"str%d"'], [17, 1000] if thorough else [17, 200]),
-                    ("ints", ["%d"], [17, 1000] if thorough else [17, 200])]
+                    ("ints", ["%d"], [17, 1000] if thorough else [17, 200]),
+                    # the same name with and without a namespace, in both orders: the helpers must tell them apart
+                    ("kw-ns-collisions", [":n/k%d :k%d" , ":k%d :n/k%d", ":user/k%d", ":k%d"], [2, 6, 17, 40])]
         for pname, kinds, size in [(pn, ks, sz) for pn, ks, szs in profiles for sz in szs]:
             keys = []
             for i in range(size):
-                keys.append((rnd.choice(kinds) % i).encode())
+                kk = rnd.choice(kinds)
+                txt = kk % ((i,) * kk.count("%d"))
+                for piece in (txt.split(" ") if pname == "kw-ns-collisions" else [txt]):
+                    keys.append(piece.encode())
+            keys = keys[:size] if pname != "kw-ns-collisions" else keys
+            size = len(keys)
             mdoc = b"{" + b" ".join(k + (" %d" % i).encode() for i, k in enumerate(keys)) + b"}"
             sdoc = b"#{" + b" ".join(keys) + b"}"
             kdoc = b"[" + b" ".join(keys) + b" :absent [99999] \"zz\" 1e99]"
@@ -616,6 +664,12 @@ def check_c09(res):
                 elif k.startswith(":"):
                     ns, nm = k[1:].split("/")
                     hops.append("N0,%s,%s" % (ns.encode().hex(), nm.encode().hex())); hexp.append(i)
+                    # the plain-keyword helper with the bare name: only an UNQUALIFIED key of that name may answer
+                    plain = (":" + nm).encode()
+                    hops.append("W0,%s" % nm.encode().hex())
+                    hexp.append(keys.index(plain) if plain in keys else ("none",))
+                    # and the namespaced helper with another namespace: not found
+                    hops.append("N0,%s,%s" % (b"zz".hex(), nm.encode().hex())); hexp.append(("none",))
                 elif k.startswith('"str'):
                     hops.append("T0,%s" % k[1:-1].encode().hex()); hexp.append(i)
                 elif k.startswith('"e'):
@@ -666,7 +720,10 @@ def check_c09(res):
             else:
                 _, size, hexp, _, _pn = m_
                 for want, got in zip(hexp, out[1:]):
-                    if isinstance(want, tuple):
+                    if want == ("none",):
+                        if got != "none":
+                            res.violations.append(Violation("helper-disagrees-with-lookup", ln[:3000], "bare-name / foreign-namespace probe returned %s" % got, cfg))
+                    elif isinstance(want, tuple):
                         if got != "idx%d" % want[1]:
                             res.violations.append(Violation("string-key-helper-misses-escaped-literal", ln[:3000],
                                                             "key %d written with an escape: helper returned %s" % (want[1], got), cfg))
@@ -861,20 +918,37 @@ def check_c06(res):
                 res.violations.append(Violation(kind, ln, "body %r: implementation %s, expected %s" % (body[:40], got[:120], want[:120]), cfg))
         # histories: get twice, equals helper
         scripts, smeta = [], []
-        for body in rnd.sample(meta, 150 if thorough else 60):
+        hbodies = rnd.sample(meta, 150 if thorough else 60)
+        # literals that are (almost) nothing but escapes: the decoded content is much shorter than the spelling
+        for esc_ in ([b"\\n", b"\\\\", b'\\"', b"\\t"] + ([b"\\u0041", b"\\u00e9", b"\\u20AC", b"\\101", b"\\7", b"\\f"] if clj else [])):
+            for k_ in (1, 2, 3, 8, 17):
+                hbodies.append(esc_ * k_)
+                hbodies.append(b"a" + esc_ * k_)
+        for body in hbodies:
             dec = refs.unescape(body, clj)
             if dec is None or b"\x00" in dec:
                 continue
             doc = b'["' + body + b'"]'
             other = dec + b"x"
-            scripts.append("script P0=%s;G0.0;Q0.0,%s;Q0.0,%s;G0.0;H0.0;G0.0" % (hexs(doc), hexs(dec), hexs(other)))
-            smeta.append((body, dec))
+            shorter = dec[:-1] if dec else b"y"
+            # every order of {get, equals(same), equals(other)} as the FIRST calls on a fresh value
+            for order in ("G0.0;Q0.0,%s;Q0.0,%s" % (hexs(dec), hexs(other)), "Q0.0,%s;G0.0;Q0.0,%s" % (hexs(dec), hexs(other)),
+                          "Q0.0,%s;Q0.0,%s;G0.0" % (hexs(other), hexs(dec)), "Q0.0,%s;Q0.0,%s;G0.0" % (hexs(shorter), hexs(dec))):
+                scripts.append("script P0=%s;%s;G0.0;H0.0;G0.0;Q0.0,%s" % (hexs(doc), order, hexs(dec)))
+                smeta.append((body, dec, order))
         impl, model = correspond(res, cfg, "san", scripts, label="string-get-scripts")
-        for (body, dec), ln, a in zip(smeta, scripts, impl):
+        for (body, dec, order), ln, a in zip(smeta, scripts, impl):
             out = a.split(";")
             want_g = "%d:%s" % (len(dec), hexs(dec))
-            if is_crash(a) or out[1] != want_g or out[2] != "1" or out[3] != "0" or out[4] != want_g or out[6] != want_g:
-                res.violations.append(Violation("string-get-unstable-or-equals-disagrees", ln, "%s (expected get %s)" % (a[:200], want_g[:60]), cfg))
+            first3 = out[1:4]
+            exp3 = []
+            for op in order.split(";"):
+                if op.startswith("G"):
+                    exp3.append(want_g)
+                else:
+                    exp3.append("1" if op.split(",")[1] == hexs(dec) else "0")
+            if is_crash(a) or first3 != exp3 or out[4] != want_g or out[6] != want_g or out[7] != "1":
+                res.violations.append(Violation("string-get-unstable-or-equals-disagrees", ln, "%s (expected %s then get %s)" % (a[:200], exp3, want_g[:60]), cfg))
         res.sample({"cfg": cfg, "literal": lines[0][:120]})
 
 
@@ -1083,6 +1157,17 @@ def check_c01(res):
                 b"1234567", b"12345678", b"123456789012345678", b"0." + b"1" * 20, b"a" * 15, b"a" * 16, b"a" * 17,
                 b" " * 15 + b"x", b" " * 16, b" " * 17, b";" + b"c" * 15, b";" + b"c" * 16, b'"' + b"a" * 15, b'"' + b"a" * 16 + b"\\"]
         docs += toks
+        # extreme scalars side by side in collections of every duplicate-strategy size (comparators, hashing)
+        ext = [b"9223372036854775807", b"-9223372036854775808", b"4611686018427387904", b"-4611686018427387904", b"0", b"-1",
+               b"1.7976931348623157e308", b"-1.7976931348623157e308", b"5e-324", b"-0.0", b"##Inf", b"##-Inf", b"##NaN",
+               b"\"\"", b'"' + b"z" * 300 + b'"', b"\\u0000" if False else b"\\a", b":k", b"sym", b"nil", b"true"]
+        for n_ in (3, 17, 40, 1001):
+            fillers = [b"%d" % (1000 + i) for i in range(max(0, n_ - len(ext)))]
+            for _ in range(2):
+                els = ext[:n_] + fillers
+                g.r.shuffle(els)
+                docs.append(b"#{" + b" ".join(els) + b"}")
+                docs.append(b"{" + b" ".join(x + b" 1" for x in els) + b"}")
         # tokens whose byte length sits around every fixed-size buffer / threshold constant the source declares
         # (read from /repo at run time) and around powers of two
         for L in c01_boundary_lengths():
@@ -1393,17 +1478,28 @@ def check_c14(res):
             names.append(cand)
         k += 1
     names.append("ns/x")
-    ops = []
-    for nme in names:
-        ops += ["r%s:0" % nme, "r%s:1" % nme, "u%s" % nme, "l%s" % nme]
+    # a second name set: names that extend one another (prefix-related) AND share a bucket, plus the empty-ish edge
+    def ext_collide(base):
+        k2 = 0
+        while True:
+            cand = "%s%d" % (base, k2)
+            if fnv(cand.encode()) % 16 == fnv(base.encode()) % 16:
+                return cand
+            k2 += 1
+    n1 = ext_collide("vec")
+    names2 = ["vec", n1, ext_collide(n1), "ve"]
     L = 6 if thorough else 4
     seqs = []
-    for n in range(1, L + 1):
-        allseq = itertools.product(ops, repeat=n)
-        if n >= 4:
-            allseq = [s for s in allseq if rnd.random() < (0.02 if n == 4 and not thorough else 0.002 if n >= 5 else 1)]
-        for sq in allseq:
-            seqs.append(list(sq) + ["l%s" % nme for nme in names])
+    for nameset in (names, names2):
+        ops = []
+        for nme in nameset:
+            ops += ["r%s:0" % nme, "r%s:1" % nme, "u%s" % nme, "l%s" % nme]
+        for n in range(1, L + 1):
+            allseq = itertools.product(ops, repeat=n)
+            if n >= 4:
+                allseq = [s for s in allseq if rnd.random() < (0.02 if n == 4 and not thorough else 0.002 if n >= 5 else 1)]
+            for sq in allseq:
+                seqs.append(list(sq) + ["l%s" % nme for nme in nameset])
     lines = ["reg " + ";".join(sq) for sq in seqs]
     for cfg in (CFGS if thorough else ["00", "11"]):
         impl, model = correspond(res, cfg, "san", lines, label="registry-ops", jobs=12)
@@ -2147,6 +2243,11 @@ def check_c17(res):
             n = rnd.choice([4, 8, 16])
             ds = [rnd.choice(heavy) for _ in range(rnd.choice([2, 3, 4, 8]))]
             tl.append("threads %d %s %s" % (n, ",".join(hexs(d) for d in ds), "-"))
+        bigreg = ",".join("t%d:%d" % (i, i % 2) for i in range(64))
+        for _ in range(8 if thorough else 4):
+            n = rnd.choice([4, 8, 16])
+            ds = [b"[" + b" ".join(b"#t%d %d" % (rnd.randrange(64), j) for j in range(40)) + b"]" for _ in range(rnd.choice([1, 2, 4]))]
+            tl.append("threads %d %s %s" % (n, ",".join(hexs(d) for d in ds), bigreg))
         outs = runner.run_impl(cfg, "tsan", tl, extra_env={"TSAN_OPTIONS": "exitcode=66:halt_on_error=1:report_signal_unsafe=0"})
         res.evaluations += len(tl)
         res.count("threads", len(tl))
@@ -2328,13 +2429,19 @@ def check_c02(res):
         g = Gen(res.seed * 13 + int(cfg, 2), clj=cfg[0] == "1", exp=cfg[1] == "1")
         docs = [g.document(5) for _ in range(400 if thorough else 150)]
         docs += [g.corrupt(rnd.choice(docs)) for _ in range(300 if thorough else 100)]
+        for v in range(256):
+            docs.append(b"[1 2 " + bytes([v]) + b" 3]")
+            docs.append(b"[1 2 " + bytes([v]) + b" 3 4 5 6 7 8 9 10 11 12 13 14 15]")
+            docs.append(b"{:a " + bytes([v]) + bytes([v]) + b" :bbbbbbbbbbbbbbbbbbbbbbbbbb 1}")
         lines = [docline(d) for d in docs]
         impl, model = correspond(res, cfg, "san", lines, label="docs")
         outs = runner.run_impl(cfg, "prod", lines, extra_args=["--stack1m"])
         for ln, a, b, mo in zip(lines, outs, impl, model):
             res.nontrivial.add(ln)
             res.count("doc")
-            if is_crash(a) or a != b:
+            if is_crash(b) or b.startswith("MISSING"):
+                res.violations.append(Violation("read-does-not-return-or-crashes", ln, "sanitized build: %s (model: %s)" % (b[:120], mo[:80]), cfg))
+            elif is_crash(a) or a != b:
                 res.violations.append(Violation("small-stack-read-differs", ln, "%s vs %s" % (a[:100], b[:100]), cfg))
             if "FUEL" in mo or "OutOfFuel" in mo:
                 res.violations.append(Violation("model-fuel-bound-hit", ln, mo[:100], cfg))
